@@ -106,6 +106,9 @@ class Imp:
                 # `finish` would cancel `close` if it were in progress.
                 await self._callback.wait_for_run_finish()
             await self._machine.aclose()
+            # End the topics created again since `pubsub.close()` above, e.g.,
+            # by subscribing while waiting for the run to finish.
+            await self.pubsub.close()
 
     async def __aenter__(self) -> 'Imp':
         await self.aopen()
